@@ -318,6 +318,14 @@ func partial(env Env, n ast.IsNode) (ast.IsNode, error) {
 			},
 		)
 	case ast.NodeTypeIsIn:
+		// `e is T in x` does not evaluate x when e is a known entity of another type
+		if left, err := partial(env, v.Left); err == nil {
+			if lv, ok := left.(ast.NodeValue); ok {
+				if e, ok := lv.Value.(types.EntityUID); ok && !containsMarker(e) && e.Type != v.EntityType {
+					return ast.NodeValue{Value: types.False}, nil
+				}
+			}
+		}
 		return tryPartial(env,
 			[]ast.IsNode{v.Left, v.Entity},
 			func(values []types.Value) Evaler {
